@@ -35,6 +35,8 @@ func (b Behaviour) String() string {
 		s += fmt.Sprintf(" %d %s", b.H, b.Variant)
 	case "lighterFork":
 		s += fmt.Sprintf(" %d %d", b.H, b.N)
+	case "lagging":
+		s += fmt.Sprintf(" %d", b.H)
 	case "liarCFHeaders":
 		s += fmt.Sprintf(" %d %s", b.H, b.Variant)
 	case "liarCFCheckpt":
@@ -53,7 +55,7 @@ func (b Behaviour) String() string {
 // Honestish: serves the true best chain for block headers.
 func (b Behaviour) followsHonest() bool {
 	switch b.Kind {
-	case "lighterFork", "liarHeaders":
+	case "lighterFork", "liarHeaders", "lagging":
 		return false
 	}
 	return true
@@ -67,13 +69,14 @@ type Peer struct {
 	B    Behaviour
 	w    *World
 
-	mu         sync.Mutex
-	own        *Blk // tip of this peer's own branch (lighterFork / liarHeaders)
-	cur        *session
-	Sessions   int32
-	fakeHash   map[int32]chainhash.Hash
-	AfterWrite func(m wire.Message) // called by the connection's writer right after a message went out
-	Release    chan struct{}        // confirm-after-release: closed by the scenario when the late answers may flow
+	mu          sync.Mutex
+	own         *Blk // tip of this peer's own branch (lighterFork / liarHeaders)
+	cur         *session
+	Sessions    int32
+	fakeHash    map[int32]chainhash.Hash
+	lastLocator []chainhash.Hash     // block locator of the most recent getheaders
+	AfterWrite  func(m wire.Message) // called by the connection's writer right after a message went out
+	Release     chan struct{}        // confirm-after-release: closed by the scenario when the late answers may flow
 
 	// counters (atomic)
 	GotGetHeaders, GotGetCFHeaders, GotGetCFCheckpt, GotGetCFilters, GotGetData, GotInvTx, GotTx int32
@@ -312,6 +315,31 @@ func (p *Peer) Inject(m wire.Message) bool {
 	return true
 }
 
+// NewScriptedPeer builds a scripted full node outside a Sim (component drivers
+// that wire a real peer.Peer to it over a pipe).  own is the tip of the chain
+// it serves when its behaviour does not follow the honest tip (lighterFork,
+// lagging, liarHeaders); nil otherwise.
+func NewScriptedPeer(w *World, idx int, addr string, b Behaviour, own *Blk) *Peer {
+	return &Peer{Idx: idx, Addr: addr, B: b, w: w, own: own, Release: make(chan struct{})}
+}
+
+// LastLocator: the block locator of the most recent getheaders this peer received.
+func (p *Peer) LastLocator() []chainhash.Hash {
+	p.mu.Lock()
+	defer p.mu.Unlock()
+	return append([]chainhash.Hash(nil), p.lastLocator...)
+}
+
+// Drop closes the live connection from the node's side.
+func (p *Peer) Drop() {
+	p.mu.Lock()
+	s := p.cur
+	p.mu.Unlock()
+	if s != nil {
+		s.close()
+	}
+}
+
 // live: a connection (handshaken or not) is currently being served
 func (p *Peer) live() bool {
 	p.mu.Lock()
@@ -376,6 +404,12 @@ func (s *session) handle(m wire.Message) {
 		s.send(wire.NewMsgPong(msg.Nonce))
 
 	case *wire.MsgGetHeaders:
+		p.mu.Lock()
+		p.lastLocator = nil
+		for _, h := range msg.BlockLocatorHashes {
+			p.lastLocator = append(p.lastLocator, *h)
+		}
+		p.mu.Unlock()
 		atomic.AddInt32(&p.GotGetHeaders, 1)
 		if p.barrier != nil {
 			select {
@@ -671,3 +705,6 @@ func (s *session) garbage() {
 }
 
 var _ = io.EOF
+
+// Tip is the tip of the chain this peer serves right now.
+func (p *Peer) Tip() *Blk { return p.tip() }
